@@ -226,6 +226,8 @@ def literals(e, pos=True, kind='cond'):
         return [Lit(E('const', val=0), True)]
     if e.op == '!=' :
         return [Lit(E('==', e.args), not pos, kind)]
+    if e.op == '<' and len(e.args) == 2:
+        return [Lit(E('>=', e.args, w=1), not pos, kind)]
     if e.op == 'call' and e.args[0] == 'bool' and len(e.args) == 2 and isinstance(e.args[1], E):
         return literals(e.args[1], pos, kind) if _is_bool(e.args[1]) else [Lit(e, pos, kind)]
     return [Lit(e, pos, kind)]
